@@ -931,8 +931,11 @@ package ircserver
 //@ pred wfSnapHolds(S *pb.Snapshot) = (forall name string :: name in S.Svsholds ==> S.Svsholds[name] != nil && allocated(S.Svsholds[name]) && parseok(S.Svsholds[name].Duration)) && (forall a string, b string :: a in S.Svsholds && b in S.Svsholds && a != b ==> NickToLower(a) != NickToLower(b))
 // The channel table: name, topic, key, channel modes, ban list (pattern and regular expression text).
 //@ pred chanRepr(p *pb.Snapshot_Channel, c *channel) = c.name == p.Name && c.topicNick == p.TopicNick && c.topicTime == tsTime(p.TopicTime) && c.topic == p.Topic && c.key == p.Key && (forall m int :: 0 <= m && m < 122 ==> (c.modes[m] <==> (exists j int :: 0 <= j && j < len(p.Modes) && p.Modes[j][0] == m))) && len(c.bans) == len(p.Bans) && (forall k int :: 0 <= k && k < len(p.Bans) ==> c.bans[k].pattern == p.Bans[k].Pattern && c.bans[k].re != nil && c.bans[k].re.String() == p.Bans[k].Regexp)
+// Members of a channel and their status (operator, voice): keyed by the lowered nickname.
+//@ pred memberRepr(m *pb.Snapshot_Channel_Modes, a *[2]bool) = m != nil && a != nil && (forall b int :: 0 <= b && b < 2 ==> (a[b] <==> (exists j int :: 0 <= j && j < len(m.Mode) && m.Mode[j][0] == b)))
+//@ pred chanNicksRepr(p *pb.Snapshot_Channel, c *channel) = c.nicks != nil && (forall n lcNick :: n in c.nicks <==> (exists name string :: name in p.Nicks && NickToLower(name) == n)) && (forall name string :: name in p.Nicks ==> NickToLower(name) in c.nicks && memberRepr(p.Nicks[name], c.nicks[NickToLower(name)]))
 //@ pred chanKey(p *pb.Snapshot_Channel) = ChanToLower(p.Name)
-//@ pred wfSnapChannels(S *pb.Snapshot) = (forall k int :: 0 <= k && k < len(S.Channels) ==> S.Channels[k] != nil && allocated(S.Channels[k]) && (forall j int :: 0 <= j && j < len(S.Channels[k].Modes) ==> len(S.Channels[k].Modes[j]) > 0 && S.Channels[k].Modes[j][0] < 122) && (forall j int :: 0 <= j && j < len(S.Channels[k].Bans) ==> S.Channels[k].Bans[j] != nil && reok(S.Channels[k].Bans[j].Regexp)) && (forall name string :: name in S.Channels[k].Nicks ==> S.Channels[k].Nicks[name] != nil && (forall j int :: 0 <= j && j < len(S.Channels[k].Nicks[name].Mode) ==> len(S.Channels[k].Nicks[name].Mode[j]) > 0 && S.Channels[k].Nicks[name].Mode[j][0] < 2))) && (forall a int, b int {S.Channels[a], S.Channels[b]} :: 0 <= a && a < b && b < len(S.Channels) ==> chanKey(S.Channels[a]) != chanKey(S.Channels[b]))
+//@ pred wfSnapChannels(S *pb.Snapshot) = (forall k int :: 0 <= k && k < len(S.Channels) ==> S.Channels[k] != nil && allocated(S.Channels[k]) && (forall j int :: 0 <= j && j < len(S.Channels[k].Modes) ==> len(S.Channels[k].Modes[j]) > 0 && S.Channels[k].Modes[j][0] < 122) && (forall j int :: 0 <= j && j < len(S.Channels[k].Bans) ==> S.Channels[k].Bans[j] != nil && reok(S.Channels[k].Bans[j].Regexp)) && (forall name string :: name in S.Channels[k].Nicks ==> S.Channels[k].Nicks[name] != nil && (forall j int :: 0 <= j && j < len(S.Channels[k].Nicks[name].Mode) ==> len(S.Channels[k].Nicks[name].Mode[j]) > 0 && S.Channels[k].Nicks[name].Mode[j][0] < 2)) && (forall x string, y string :: x in S.Channels[k].Nicks && y in S.Channels[k].Nicks && x != y ==> NickToLower(x) != NickToLower(y))) && (forall a int, b int {S.Channels[a], S.Channels[b]} :: 0 <= a && a < b && b < len(S.Channels) ==> chanKey(S.Channels[a]) != chanKey(S.Channels[b]))
 // What Marshal guarantees about the shape of a snapshot (asserted there, assumed after decoding).
 //@ pred wfSnapSessions(S *pb.Snapshot) = (forall k int :: 0 <= k && k < len(S.Sessions) ==> S.Sessions[k] != nil && allocated(S.Sessions[k]) && S.Sessions[k].Id != nil && S.Sessions[k].IrcPrefix != nil && (forall j int :: 0 <= j && j < len(S.Sessions[k].Modes) ==> len(S.Sessions[k].Modes[j]) > 0 && S.Sessions[k].Modes[j][0] < 122)) && (forall a int, b int {S.Sessions[a], S.Sessions[b]} :: 0 <= a && a < b && b < len(S.Sessions) ==> snapId(S.Sessions[a]) != snapId(S.Sessions[b]))
 //@ pred wfSnapTop(S *pb.Snapshot) = S.LastProcessed != nil && S.Config != nil && S.Config.Irc != nil && cfgTextOK(S.Config) && (forall k int :: 0 <= k && k < len(S.Config.Irc.Operators) ==> S.Config.Irc.Operators[k] != nil) && (forall k int :: 0 <= k && k < len(S.Config.Irc.Services) ==> S.Config.Irc.Services[k] != nil)
@@ -1081,20 +1084,25 @@ package ircserver
 // the loops after the session loop write other mode arrays only
 //@   loop range snapshot.Channels
 //@     invariant chan: 0 - 1 <= rangeindex && rangeindex < len(snapshot.Channels) && (forall k int :: 0 <= k && k <= rangeindex ==> chanKey(snapshot.Channels[k]) in i.channels && i.channels[chanKey(snapshot.Channels[k])] != nil && allocated(i.channels[chanKey(snapshot.Channels[k])]) && allocated(i.channels[chanKey(snapshot.Channels[k])].bans) && chanRepr(snapshot.Channels[k], i.channels[chanKey(snapshot.Channels[k])]))
+//@     invariant channicks: forall k int :: 0 <= k && k <= rangeindex ==> chanNicksRepr(snapshot.Channels[k], i.channels[chanKey(snapshot.Channels[k])]) && allocated(i.channels[chanKey(snapshot.Channels[k])].nicks) && (forall n lcNick :: n in i.channels[chanKey(snapshot.Channels[k])].nicks ==> allocated(i.channels[chanKey(snapshot.Channels[k])].nicks[n]))
 //@     invariant chan-only: forall ch lcChan :: ch in i.channels ==> (exists k int :: 0 <= k && k <= rangeindex && chanKey(snapshot.Channels[k]) == ch)
 //@     invariant holds: forall n lcNick :: !(n in i.svsholds)
 //@     invariant modes: forall k int :: 0 <= k && k < len(snapshot.Sessions) ==> modesRepr(snapshot.Sessions[k], i.sessions[snapId(snapshot.Sessions[k])])
 //@   loop range c.Nicks
+//@     invariant channicks: nicks != nil && allocated(nicks) && (forall name string :: seen(name) ==> name in c.Nicks && NickToLower(name) in nicks && allocated(nicks[NickToLower(name)]) && memberRepr(c.Nicks[name], nicks[NickToLower(name)])) && (forall n lcNick :: n in nicks ==> (exists name string :: seen(name) && NickToLower(name) == n))
 //@     invariant holds: forall n lcNick :: !(n in i.svsholds)
 //@     invariant modes: forall k int :: 0 <= k && k < len(snapshot.Sessions) ==> modesRepr(snapshot.Sessions[k], i.sessions[snapId(snapshot.Sessions[k])])
 //@   loop range channelNickModes.Mode
+//@     invariant channicks: 0 - 1 <= rangeindex && rangeindex < len(channelNickModes.Mode) && nickName in c.Nicks && channelNickModes == c.Nicks[nickName] && nicks != nil && allocated(nicks) && (forall b int :: 0 <= b && b < 2 ==> (modes[b] <==> (exists j int :: 0 <= j && j <= rangeindex && channelNickModes.Mode[j][0] == b))) && (forall name string :: seen(name, "range c.Nicks") && name != nickName ==> name in c.Nicks && NickToLower(name) in nicks && allocated(nicks[NickToLower(name)]) && memberRepr(c.Nicks[name], nicks[NickToLower(name)])) && (forall n lcNick :: n in nicks ==> (exists name string :: seen(name, "range c.Nicks") && name != nickName && NickToLower(name) == n))
 //@     invariant holds: forall n lcNick :: !(n in i.svsholds)
 //@     invariant modes: forall k int :: 0 <= k && k < len(snapshot.Sessions) ==> modesRepr(snapshot.Sessions[k], i.sessions[snapId(snapshot.Sessions[k])])
 //@   loop range c.Modes
+//@     invariant channicks: (forall name string :: name in c.Nicks ==> NickToLower(name) in nicks && allocated(nicks[NickToLower(name)]) && memberRepr(c.Nicks[name], nicks[NickToLower(name)])) && (forall n lcNick :: n in nicks ==> (exists name string :: name in c.Nicks && NickToLower(name) == n)) && nicks != nil && allocated(nicks)
 //@     invariant chan-modes: 0 - 1 <= rangeindex && rangeindex < len(c.Modes) && (forall m int :: 0 <= m && m < 122 ==> (modes[m] <==> (exists j int :: 0 <= j && j <= rangeindex && c.Modes[j][0] == m)))
 //@     invariant holds: forall n lcNick :: !(n in i.svsholds)
 //@     invariant modes: forall k int :: 0 <= k && k < len(snapshot.Sessions) ==> modesRepr(snapshot.Sessions[k], i.sessions[snapId(snapshot.Sessions[k])])
 //@   loop range c.Bans
+//@     invariant channicks: (forall name string :: name in c.Nicks ==> NickToLower(name) in nicks && allocated(nicks[NickToLower(name)]) && memberRepr(c.Nicks[name], nicks[NickToLower(name)])) && (forall n lcNick :: n in nicks ==> (exists name string :: name in c.Nicks && NickToLower(name) == n)) && nicks != nil && allocated(nicks)
 //@     invariant chan-bans: 0 - 1 <= rangeindex && rangeindex < len(c.Bans) && len(bans) == len(c.Bans) && allocated(bans) && (forall k int :: 0 <= k && k <= rangeindex ==> bans[k].pattern == c.Bans[k].Pattern && bans[k].re != nil && bans[k].re.String() == c.Bans[k].Regexp)
 //@     invariant chan-modes: forall m int :: 0 <= m && m < 122 ==> (modes[m] <==> (exists j int :: 0 <= j && j < len(c.Modes) && c.Modes[j][0] == m))
 //@     invariant holds: forall n lcNick :: !(n in i.svsholds)
@@ -1119,9 +1127,11 @@ package ircserver
 //@   assert@return snapshot.LastIncludedIndex, nil#0 : modes: forall k int :: 0 <= k && k < len(snapshot.Sessions) ==> modesRepr(snapshot.Sessions[k], i.sessions[snapId(snapshot.Sessions[k])])
 //@   assert@return snapshot.LastIncludedIndex, nil#0 : chans: forall k int :: 0 <= k && k < len(snapshot.Sessions) ==> chansRepr(snapshot.Sessions[k], i.sessions[snapId(snapshot.Sessions[k])])
 //@   assert@mapupdate i.svsholds#0 : holds-new: nickName in snapshot.Svsholds && s == snapshot.Svsholds[nickName] && (forall name string :: seen(name, "range snapshot.Svsholds") && name != nickName ==> name in snapshot.Svsholds && NickToLower(name) != NickToLower(nickName))
+//@   assert@mapupdate i.channels#0 : channicks-built: chanNicksRepr(c, addrof(newChannel)) && allocated(newChannel.nicks)
 //@   assert@mapupdate i.channels#0 : chan-built: chanRepr(c, addrof(newChannel)) && allocated(newChannel.bans)
 //@   assert@mapupdate i.channels#0 : chan-newkey: forall k int :: 0 <= k && k <= rangeindex ==> chanKey(snapshot.Channels[k]) != chanKey(c)
 //@   assert@return snapshot.LastIncludedIndex, nil#0 : chan: forall k int :: 0 <= k && k < len(snapshot.Channels) ==> chanKey(snapshot.Channels[k]) in i.channels && chanRepr(snapshot.Channels[k], i.channels[chanKey(snapshot.Channels[k])])
+//@   assert@return snapshot.LastIncludedIndex, nil#0 : channicks: forall k int :: 0 <= k && k < len(snapshot.Channels) ==> chanNicksRepr(snapshot.Channels[k], i.channels[chanKey(snapshot.Channels[k])])
 //@   assert@return snapshot.LastIncludedIndex, nil#0 : chan-only: forall ch lcChan :: ch in i.channels ==> (exists k int :: 0 <= k && k < len(snapshot.Channels) && chanKey(snapshot.Channels[k]) == ch)
 //@   assert@return snapshot.LastIncludedIndex, nil#0 : holds: holdsRepr(addrof(snapshot), i)
 //@   assert@return snapshot.LastIncludedIndex, nil#0 : nicks: wfNicksLoaded(i)
